@@ -283,7 +283,9 @@ mod v_iface_slaac {
         assert_inv(&s, t0);
         assert!(!s.rs_required(us(t0)), "prop:c13_slaac_one_solicitation_per_poll");
         if rs && s.num_solicitations > 0 {
-            assert!(s.poll_at(us(t0)) == Some(us(t0 + RSI)), "prop:c13_slaac_next_solicitation_after_interval");
+            // (the deadline may be earlier than the next solicitation when a stored route or prefix expires first)
+            assert!(s.retry_rs_at == us(t0 + RSI), "prop:c13_slaac_next_solicitation_after_interval");
+            assert!(matches!(s.poll_at(us(t0)), Some(d) if d <= us(t0 + RSI)), "prop:c13_slaac_next_solicitation_is_a_deadline");
         }
         if rs {
             assert!(before(t0, s.poll_at(us(t0))), "prop:c13_slaac_solicitation_leaves_future_deadline");
